@@ -29,6 +29,14 @@ def make_cases(ctx, first):
             w.probe()
         w.run(len(w.steps) + steps // 2)
         w.probe()
+        if ctx.rng.random() < 0.25:
+            # everything grows old and a collection runs under the configured (default) policy: untagged manifests stay, and so
+            # does every config, layer and child a stored manifest references - whatever the media type it is listed under
+            import gcgen
+            for r_ in w.repos:
+                w.add(gcgen.age_step(r_, "", 7200))
+                w.add(gcgen.gc_step(r_))
+            w.probe()
         cases.append(dict(id=first + i, conf=conf, steps=w.steps, contents=sorted(w.contents)))
     return cases
 
